@@ -355,6 +355,13 @@ func XReinit() {
 		os.Rename(tmp, filepath.Join(dst, "zz_export.go"))
 		keep["zz_export.go"] = true
 	}
+	if pkg == "reactorx" {
+		src := "// Code generated by stmtinstr; DO NOT EDIT.\n\npackage reactorx\n\n// XTokensInUse exposes how many tokens are taken (the pool is unexported in the original package).\nfunc XTokensInUse() int {\n\tif globalReactor == nil {\n\t\treturn -1\n\t}\n\treturn len(globalReactor.tokenPool)\n}\n"
+		tmp := filepath.Join(dst, ".zz_export.go.tmp")
+		os.WriteFile(tmp, []byte(src), 0o644)
+		os.Rename(tmp, filepath.Join(dst, "zz_export.go"))
+		keep["zz_export.go"] = true
+	}
 	if pkg == "statsx" {
 		tmp := filepath.Join(dst, ".zz_export.go.tmp")
 		os.WriteFile(tmp, []byte(extra2), 0o644)
